@@ -65,6 +65,11 @@ def gen(rng, root, dangling=True, unknown=True, db_events=True, nplat=None, writ
             for k in range(rng.randint(0, 2) if rng.random() < 0.5 else 0):
                 f = posixpath.join(rng.choice(desc["dirs"]), f"generated{k}.c")
                 ent = {"file": f, "directory": ".", "arguments": [rng.choice(KNOWN_COMPILERS + UNKNOWN_COMPILERS), "-Wall", "-c", f]}
+                if desc["sources"] and rng.random() < 0.4:
+                    # an out-of-tree build directory whose entry names a file that is missing *there* although a file
+                    # with the same relative path exists under the root (a relative `file` is relative to `directory`)
+                    f = rng.choice(desc["sources"])
+                    ent = {"file": f, "directory": ".", "builddir": "build_out", "arguments": [rng.choice(KNOWN_COMPILERS), "-DGENERATED=1", "-c", f]}
                 pos = rng.randint(0, len(entries))
                 entries.insert(pos, ent)
                 meta.insert(pos, {"missing": True, "compiler": os.path.basename(ent["arguments"][0]), "known": True, "unrecognised": []})
@@ -143,7 +148,7 @@ def expected(desc, root):
     for pname, ents in desc["platforms"].items():
         live = 0
         for e, m in zip(ents, desc["dbmeta"][pname]):
-            path = os.path.normpath(os.path.join(root, e["file"]))
+            path = os.path.normpath(os.path.join(root, e.get("builddir", ""), e["file"]))
             if m["missing"]:
                 ev[("missing", path)] += 1
                 continue
